@@ -50,7 +50,7 @@ pub fn gen_case_named(seed: u64, idx: usize, kinds: &[SectionKind], mode: usize,
 /// `wide_first`: the first section has line numbers of 5-7 digits, the others small ones.
 pub fn gen_case_full(seed: u64, idx: usize, kinds: &[SectionKind], mode: usize, names: &[&str], wide_first: bool) -> Case {
     let mut rng = Rng::new(mix(seed, &[tag("C10"), tag("concat"), idx as u64]));
-    let gp = GenParams { flavor: gen::Flavor::Git, sections: vec![], max_hunks: rng.range(1, 3), pivot: *rng.pick(&[1usize, 2, 3]), max_run: 6, with_commit_preamble: false, multibyte: rng.chance(1, 4), no_newline_marker: rng.chance(1, 2), similar_pairs: rng.chance(1, 2), no_index_lines: rng.chance(1, 4), no_prefix: rng.chance(1, 6), line_number_class: 0 };
+    let gp = GenParams { flavor: gen::Flavor::Git, sections: vec![], max_hunks: rng.range(1, 3), pivot: *rng.pick(&[1usize, 2, 3]), max_run: 6, with_commit_preamble: false, multibyte: rng.chance(1, 4), no_newline_marker: rng.chance(1, 2), similar_pairs: rng.chance(1, 2), no_index_lines: rng.chance(1, 4), no_prefix: rng.chance(1, 6), line_number_class: 0, long_line_pct: *rng.pick(&[0u8, 0, 8, 50]) };
     let mut sections = Vec::new();
     let mut tok = 0;
     // one time in three all sections are about the same path (`git log -p -- path`, a file added in
